@@ -133,11 +133,15 @@ def driver_tests_zero(prog, r):
             continue
         fv = view(prog, k)
         brs = branches(fv)
-        for bi, t in fv.calls(re.compile(r"tokio::time::sleep")):
+        # the duration handed to sleep() under an Output::Set*Timer(secs) arm is built by Duration::from_secs(secs):
+        # "tested" means that construction happens only when secs != 0 (any other duration is the disarmed one)
+        for bi, t in fv.calls(re.compile(r"(std|core)::time::Duration::from_secs")):
             e = Renderer(fv, depth=10).operand(t["args"][0], 10)
-            # sleep(Duration::from_secs(secs)) where secs comes from an Output payload
+            if "secs" not in expr_vars(e):
+                continue
             which = None
-            for g, labels, how in flat_guards(fv, bi, brs):
+            gs = flat_guards(fv, bi, brs)
+            for g, labels, how in gs:
                 if g[0] == "discr" and g[2] and g[2].endswith("fsm::Output"):
                     for l in labels:
                         if l in res:
@@ -147,13 +151,14 @@ def driver_tests_zero(prog, r):
             n += 1
             r.analysed(root_name(prog, k))
             tested = False
-            for g, labels, how in flat_guards(fv, bi, brs):
+            for g, labels, how in gs:
                 if g[0] == "bin" and g[1] in ("Ne", "Eq", "Gt") and "secs" in expr_vars(g) and any(x[0] == "const" and x[1] == 0 for x in (g[2], g[3])):
-                    tested = True
+                    if (g[1] in ("Ne", "Gt") and labels == {"true"}) or (g[1] == "Eq" and labels == {"false"}):
+                        tested = True
             if not tested:
                 res[which] = False
-    if n < 3:
-        r.unanalysable("driver arms for Set*Timer: found %d sleep sites under an Output match (want >= 3)" % n)
+    if n < 2:
+        r.unanalysable("driver arms for Set*Timer: found %d Duration::from_secs(secs) sites under an Output match (want >= 2)" % n)
     return res
 
 
